@@ -33,6 +33,10 @@ Definition S2 (keys : list Z) (items : list (Z * Z)) (s t : stats) : snap := (ke
 Definition st (o : op) (r : gout) (sn : snap) : sstep := (o, r, sn).
 Definition ws (o : wop) (r : gout) (p : probe) : wobs := (o, r, p).
 Definition ce (inv resp : Z) (o : cop) (r : cres) : cevent := (inv, resp, o, r).
+(* compact notation for bursts: lo, lo+1, .., lo+n-1; the n low base-8 digits of d, least significant first *)
+Definition zrange (lo n : Z) : list Z := map (fun i => lo + Z.of_nat i) (seq 0 (Z.to_nat n)).
+Fixpoint digs_aux (n : nat) (d : Z) : list Z := match n with O => [] | S m => d mod 8 :: digs_aux m (d / 8) end.
+Definition digs (d n : Z) : list Z := digs_aux (Z.to_nat n) d.
 Definition rP : gout := None.                                  (* the call panicked *)
 Definition rU : gout := Some RUnit.
 Definition rM : gout := Some (RVal None).                      (* miss *)
@@ -40,11 +44,23 @@ Definition rV (v : Z) : gout := Some (RVal (Some v)).          (* hit *)
 Definition rB (b : bool) : gout := Some (RBool b).
 Definition rL (l : list Z) : gout := Some (RList l).
 
+(* Exist(k), Peek(k) at quiescence *)
+Definition bprobe := (Z * bool * option Z)%type.
+Definition pH (k v : Z) : bprobe := (k, true, Some v).          (* found by both, value v *)
+Definition pM (k : Z) : bprobe := (k, false, None).             (* missed by both *)
+Definition pX (k : Z) (b : bool) (o : option Z) : bprobe := (k, b, o).
+
 Inductive case :=
 | CSeq (v : variant) (cap0 : Z) (steps : list sstep)
 | CWide (v : variant) (capacity n : Z) (tab : option (list (Z * nat))) (univ : list Z) (steps : list wobs)
   (* a concurrent run, already linearised by the harness: events in linearisation order, final snapshot *)
-| CConc (v : variant) (cap0 : Z) (events : list cevent) (final : snap).
+| CConc (v : variant) (cap0 : Z) (events : list cevent) (final : snap)
+  (* a same-key burst: goroutine g issues call progs[g][j] on key univ[j] (value k*64+g, size sizes[j]; codes: 0 SetIfAbsent
+     1 Set 2 Get 3 Delete 4 SetAndGetRemoved 5 Peek), all goroutines concurrently on one fresh cache (wide = Some (shards,
+     routing table) for a wide facade, where 0 and 4 are issued as Set); observed only at quiescence: did any call panic,
+     Exist and Peek of every key of the universe, and for a single cache Keys/Items/Stats/the four single accessors *)
+| CBurst (v : variant) (cap0 : Z) (wide : option (Z * option (list (Z * nat)))) (univ sizes : list Z) (progs : list (list Z))
+         (panicked : bool) (probe : list bprobe) (final : option snap).
 
 (* ---------------- decidable equalities ---------------- *)
 Definition res_eqb (a b : res) : bool :=
@@ -207,12 +223,86 @@ Fixpoint conc_holds (v : variant) (s : istate) (evs : list cevent) (final : snap
 Definition cop_domb (o : cop) : bool := match o with COp o' => op_domb o' | _ => true end.
 Definition conc_dom (cap0 : Z) (evs : list cevent) : bool := inB cap0 && forallb (fun e => cop_domb (snd (fst e))) evs.
 
+(* ---------------- a same-key burst, observed at quiescence ----------------
+   What the ideal cache guarantees for EVERY linearisation of the burst (no linearisation is searched):
+   Keys() has no duplicates; Keys() = keys of Items(); Length = len(Keys()); the single accessors repeat Stats(); the
+   capacity is unchanged; every listed item was written by a call of the burst; Size = sum of the listed items' sizes
+   (tiny: = Length) and 0 <= Size <= Capacity; a key of the universe Exists / Peeks iff it is listed, with the listed value;
+   when the distinct keys written fit into the capacity nothing was evicted and, unless the burst deletes, every written key
+   is present.  (Proved of every history of the model in C04_Burst.v.) *)
+Definition is_bwrite (c : Z) : bool := (c =? 0) || (c =? 1) || (c =? 4).
+Definition bval (g k : Z) : Z := k * 64 + g.
+Definition bsize (v : variant) (sz : Z) : Z := match v with VTiny => 1 | VStd => sz end.
+Definition bwrite := (Z * Z * Z)%type.                            (* key, value, size *)
+Fixpoint row_writes (v : variant) (g : Z) (univ sizes row : list Z) : list bwrite :=
+  match univ, sizes, row with
+  | k :: u, sz :: ss, c :: r => (if is_bwrite c then [(k, bval g k, bsize v sz)] else []) ++ row_writes v g u ss r
+  | _, _, _ => []
+  end.
+Fixpoint all_writes (v : variant) (g : Z) (univ sizes : list Z) (progs : list (list Z)) : list bwrite :=
+  match progs with [] => [] | row :: r => row_writes v g univ sizes row ++ all_writes v (g + 1) univ sizes r end.
+Definition has_delete (progs : list (list Z)) : bool := existsb (existsb (Z.eqb 3)) progs.
+Definition wkeyb (k : Z) (w : bwrite) : bool := fst (fst w) =? k.
+Definition wsize (k x : Z) (W : list bwrite) : option Z :=
+  option_map snd (find (fun w => wkeyb k w && (snd (fst w) =? x)) W).
+Definition written (k : Z) (W : list bwrite) : bool := existsb (wkeyb k) W.
+Definition ksize (k : Z) (W : list bwrite) : Z := match find (wkeyb k) W with Some w => snd w | None => 0 end.
+Definition zmem (k : Z) (l : list Z) : bool := existsb (Z.eqb k) l.
+Fixpoint nodupb (l : list Z) : bool := match l with [] => true | x :: r => negb (zmem x r) && nodupb r end.
+Definition zsum (l : list Z) : Z := fold_right Z.add 0 l.
+(* the summed size of the distinct keys written, among ks *)
+Definition need (W : list bwrite) (ks : list Z) : Z := zsum (map (fun k => ksize k W) ks).
+Definition item_sizes (W : list bwrite) (items : list (Z * Z)) : list (option Z) := map (fun it => wsize (fst it) (snd it) W) items.
+Definition osum (l : list (option Z)) : Z := zsum (map (fun o => match o with Some z => z | None => 0 end) l).
+Definition bprobe_eqb (a b : bprobe) : bool :=
+  let '(k1, b1, o1) := a in let '(k2, b2, o2) := b in (k1 =? k2) && Bool.eqb b1 b2 && opt_eqb Z.eqb o1 o2.
+Definition expected_probe (items : list (Z * Z)) (univ : list Z) : list bprobe :=
+  map (fun k => match find (fun it => fst it =? k) items with Some it => (k, true, Some (snd it)) | None => (k, false, None) end) univ.
+
+Definition burst_single_ok (cap0 : Z) (W : list bwrite) (del : bool) (univ : list Z) (panicked : bool) (probe : list bprobe) (sn : snap) : bool :=
+  let '(keys, items, s, t) := sn in
+  let '(len, sz, cp, ev) := s in
+  negb panicked
+  && nodupb keys && zlist_eqb keys (map fst items) && stats_eqb s t && (len =? Z.of_nat (length keys)) && (cp =? cap0)
+  && forallb is_some (item_sizes W items) && (sz =? osum (item_sizes W items)) && (0 <=? sz) && (sz <=? cap0) && (0 <=? ev)
+  && list_eqb bprobe_eqb probe (expected_probe items univ)
+  && (if need W univ <=? cap0 then (ev =? 0) && (del || forallb (fun k => negb (written k W) || zmem k keys) univ) else true).
+
+(* wide facade: only Exist / Peek are observable; per shard the present keys fit, and a shard whose written keys all fit
+   has lost none of them *)
+Definition burst_wide_ok (cap0 n : Z) (route : Z -> nat) (W : list bwrite) (del : bool) (univ : list Z) (panicked : bool) (probe : list bprobe) : bool :=
+  let present := flat_map (fun p => match p with (k, _, Some x) => [(k, x)] | _ => [] end) probe in
+  let shard i := filter (fun k => Nat.eqb (route k) i) univ in
+  negb panicked
+  && zlist_eqb (map (fun p => fst (fst p)) probe) univ
+  && forallb (fun p => let '(k, b, o) := p in Bool.eqb b (is_some o) && match o with Some x => is_some (wsize k x W) | None => true end) probe
+  && forallb (fun k =>
+       let i := route k in
+       (osum (item_sizes W (filter (fun it => Nat.eqb (route (fst it)) i) present)) <=? shard_cap cap0 n)
+       && (if need W (shard i) <=? shard_cap cap0 n then del || negb (written k W) || zmem k (map fst present) else true)) univ.
+
+Definition burst_dom (cap0 : Z) (wide : option (Z * option (list (Z * nat)))) (univ sizes : list Z) (progs : list (list Z)) : bool :=
+  inB cap0 && nodupb univ && forallb inB sizes && (length univ =? length sizes)%nat
+  && forallb (fun row => (length row =? length univ)%nat) progs
+  && match wide with Some (n, _) => (1 <=? n) && (cap0 <? B) | None => true end.
+
+Definition burst_ok (v : variant) (cap0 : Z) (wide : option (Z * option (list (Z * nat)))) (univ sizes : list Z) (progs : list (list Z))
+           (panicked : bool) (probe : list bprobe) (final : option snap) : bool :=
+  let W := all_writes v 0 univ sizes progs in
+  match wide, final with
+  | None, Some sn => burst_single_ok cap0 W (has_delete progs) univ panicked probe sn
+  | Some (n, tab), None => burst_wide_ok cap0 n (wroute n tab) W (has_delete progs) univ panicked probe
+  | _, _ => false
+  end.
+
 (* ---------------- the two functions the driver evaluates ---------------- *)
 Definition case_accept (c : case) : bool :=
   match c with
   | CSeq v cap0 steps => seq_accept v (new_lru cap0) steps
   | CWide v capacity n tab univ steps => wide_accept v (wroute n tab) univ (wide_init capacity n) steps
   | CConc v cap0 evs final => rt_ok (-1) evs && conc_accept v (new_lru cap0) evs final
+    (* a burst has no single model run to compare with: accepted = consistent with every linearisation's guarantees *)
+  | CBurst v cap0 wide univ sizes progs panicked probe final => burst_ok v cap0 wide univ sizes progs panicked probe final
   end.
 
 (* outside the property's quantifier (negative or absurdly large sizes / capacities) nothing is claimed *)
@@ -222,6 +312,8 @@ Definition case_holds (c : case) : bool :=
   | CWide v capacity n tab univ steps =>
       if wide_domb capacity n steps then wide_holds v (wroute n tab) univ (iwide_init capacity n) steps else true
   | CConc v cap0 evs final => if conc_dom cap0 evs then rt_ok (-1) evs && conc_holds v (new_istate cap0) evs final else true
+  | CBurst v cap0 wide univ sizes progs panicked probe final =>
+      if burst_dom cap0 wide univ sizes progs then burst_ok v cap0 wide univ sizes progs panicked probe final else true
   end.
 
 (* ---------------- soundness ---------------- *)
@@ -305,7 +397,8 @@ Qed.
 
 Theorem case_sound : forall c, case_accept c = true -> case_holds c = true.
 Proof.
-  intros [v cap0 steps|v capacity n tab univ steps|v cap0 evs final]; cbn [case_accept case_holds]; intros Ha.
+  intros [v cap0 steps|v capacity n tab univ steps|v cap0 evs final|v cap0 wide univ sizes progs panicked probe final];
+    cbn [case_accept case_holds]; intros Ha.
   - destruct (seq_dom cap0 steps) eqn:Ed; [|reflexivity]. unfold seq_dom in Ed. apply andb_prop in Ed as [Hc Hd].
     apply inB_spec in Hc. change (new_istate cap0) with (abs (new_lru cap0)).
     apply seq_sound; [apply new_MInv; exact Hc|exact Hd|exact Ha].
@@ -318,4 +411,5 @@ Proof.
     apply inB_spec in Hc. apply andb_prop in Ha as [Hrt Ha]. rewrite Hrt. cbn [andb].
     change (new_istate cap0) with (abs (new_lru cap0)).
     apply conc_sound; [apply new_MInv; exact Hc|exact Hd|exact Ha].
+  - destruct (burst_dom cap0 wide univ sizes progs); [exact Ha|reflexivity].
 Qed.
